@@ -417,8 +417,11 @@ class Input(object):
             self.locking_script = b'\x76\xa9\x14' + self.public_hash + b'\x88\xac'
             addr_data = self.public_hash
             if self.signatures and self.keys:
-                self.witnesses = [self.signatures[0].as_der_encoded() if hash_type else b'', self.keys[0].public_byte]
-                unlock_script = b''.join([bytes(varstr(w)) for w in self.witnesses])
+                sig_key = [self.signatures[0].as_der_encoded() if hash_type else b'', self.keys[0].public_byte]
+                # A legacy input has no witness, raw() would serialize it
+                if self.witness_type != 'legacy':
+                    self.witnesses = sig_key
+                unlock_script = b''.join([bytes(varstr(w)) for w in sig_key])
             if not self.unlocking_script or self.strict:
                 if self.witness_type == 'p2sh-segwit':
                     self.unlocking_script = varstr(b'\0' + varstr(self.public_hash))
